@@ -11,6 +11,9 @@
 #include <string.h>
 #include <sys/types.h>
 #include <unistd.h>
+#include <fcntl.h>
+#include <stdio.h>
+#include <sys/stat.h>
 #include <sys/syscall.h>
 
 static uint64_t counter = 0;
@@ -66,14 +69,59 @@ static int io_fault(size_t *count) {
     return 0;
 }
 
+/* HARD I/O faults: VERIF_IO_HARD="r:<n>" makes read(2) fail with EIO once <n> bytes have been
+ * read from regular files below the directory VERIF_IO_DIR (the harness' scratch directory);
+ * "w:<n>" makes write(2) to such files fail with ENOSPC after <n> bytes (a full disk). The
+ * transfer that crosses the limit is cut short at it; the fault is persistent. When it fires,
+ * the file named by VERIF_IO_FIRED is created so that the oracle knows. */
+static uint64_t hard_bytes = 0;
+
+static int in_scratch(int fd) {
+    const char *dir = getenv("VERIF_IO_DIR");
+    if (!dir) return 0;
+    struct stat st;
+    if (fstat(fd, &st) != 0 || !S_ISREG(st.st_mode)) return 0;
+    char link[64], path[4096];
+    snprintf(link, sizeof link, "/proc/self/fd/%d", fd);
+    ssize_t n = readlink(link, path, sizeof path - 1);
+    if (n <= 0) return 0;
+    path[n] = 0;
+    size_t dl = strlen(dir);
+    return strncmp(path, dir, dl) == 0 && path[dl] == '/';
+}
+
+/* returns 1 if the call must fail now, else possibly shortens *count */
+static int hard_fault(int fd, char dirn, size_t *count) {
+    const char *s = getenv("VERIF_IO_HARD");
+    if (!s || s[0] != dirn || s[1] != ':' || *count == 0) return 0;
+    if (!in_scratch(fd)) return 0;
+    uint64_t limit = strtoull(s + 2, NULL, 10);
+    if (hard_bytes >= limit) {
+        const char *f = getenv("VERIF_IO_FIRED");
+        if (f) {
+            int m = open(f, O_CREAT | O_WRONLY, 0644);
+            if (m >= 0) close(m);
+        }
+        return 1;
+    }
+    if (hard_bytes + *count > limit) *count = (size_t)(limit - hard_bytes);
+    return 0;
+}
+
 ssize_t read(int fd, void *buf, size_t count) {
     if (!real_read) real_read = (ssize_t(*)(int, void *, size_t))dlsym(RTLD_NEXT, "read");
+    if (hard_fault(fd, 'r', &count)) { errno = EIO; return -1; }
     if (io_fault(&count)) { errno = EINTR; return -1; }
-    return real_read(fd, buf, count);
+    ssize_t n = real_read(fd, buf, count);
+    if (n > 0 && getenv("VERIF_IO_HARD") && in_scratch(fd) && getenv("VERIF_IO_HARD")[0] == 'r') hard_bytes += (uint64_t)n;
+    return n;
 }
 
 ssize_t write(int fd, const void *buf, size_t count) {
     if (!real_write) real_write = (ssize_t(*)(int, const void *, size_t))dlsym(RTLD_NEXT, "write");
+    if (hard_fault(fd, 'w', &count)) { errno = ENOSPC; return -1; }
     if (io_fault(&count)) { errno = EINTR; return -1; }
-    return real_write(fd, buf, count);
+    ssize_t n = real_write(fd, buf, count);
+    if (n > 0 && getenv("VERIF_IO_HARD") && in_scratch(fd) && getenv("VERIF_IO_HARD")[0] == 'w') hard_bytes += (uint64_t)n;
+    return n;
 }
